@@ -589,7 +589,8 @@ def builtin_call(engine, st, name, node):
                     ln = z3.simplify(rv.c[0])
                     if z3.is_int_value(ln):
                         return Ty.mk_tuple([engine.elem(rv, z3.IntVal(p)) for p in range(ln.as_long())])
-                    raise Unsupported("tuple() of a list of symbolic length")
+                    # a tuple of symbolic length: the same sequence, never mutated
+                    return r
             return r
         if isinstance(a, ast.Call) and isinstance(a.func, ast.Name) and a.func.id == "range":
             from .loops import describe_iter
@@ -769,7 +770,12 @@ def quantified(engine, st, node, kind):
         else:
             guard = [it.dom[q]]
         bind_comp_target(engine, g.target, it.elem(q))
+        # obligations raised by the body hold for elements of the iterable only
+        st = st.clone()
+        st.assume(z3.And(*guard))
         conds = [engine.truth(st, engine.eval(st, c)) for c in g.ifs]
+        for c_ in conds:
+            st.assume(c_)
         body = engine.truth(st, engine.eval(st, node.elt))
     finally:
         engine.bound = old
@@ -816,9 +822,27 @@ def comprehension(engine, st, node, kind):
             conds = [engine.truth(st, engine.eval(st, c)) for c in g.ifs]
             for c_ in conds:
                 st.assume(c_)
+            if kind in ("list", "gen") and conds:
+                # [f(x) for x in xs if c(x)]: order-preserving selection.  idx maps output positions to
+                # source positions (strictly increasing, all satisfying c), inv maps every source position
+                # that satisfies c to its output position: together the exact semantics of filtering.
+                val = engine.unbox_value(st, engine.eval(st, node.elt))
+                out = Ty.havoc(Ty.List(val.t), f"filtered@{engine.line(node)}")
+                m, n = out.c[0], it.length
+                tag = f"{node.lineno}.{node.col_offset}!{engine.new_id()}"
+                idx = z3.Function(f"flt!idx!{tag}", Ty.IntS, Ty.IntS)
+                inv = z3.Function(f"flt!inv!{tag}", Ty.IntS, Ty.IntS)
+                a_, b_ = z3.Ints("flt!a flt!b")
+                cnd = z3.And(*conds)
+                sub = lambda e, x: z3.substitute(e, (q, x))
+                outer.assume(z3.And(0 <= m, m <= n))
+                outer.assume(z3.ForAll([a_], z3.Implies(z3.And(0 <= a_, a_ < m), z3.And(
+                    0 <= idx(a_), idx(a_) < n, sub(cnd, idx(a_)), inv(idx(a_)) == a_,
+                    *[arr[a_] == sub(c, idx(a_)) for arr, c in zip(out.c[1:], val.c)])), patterns=[idx(a_)]))
+                outer.assume(z3.ForAll([a_, b_], z3.Implies(z3.And(0 <= a_, a_ < b_, b_ < m), idx(a_) < idx(b_))))
+                outer.assume(z3.ForAll([q], z3.Implies(z3.And(0 <= q, q < n, cnd), z3.And(0 <= inv(q), inv(q) < m, idx(inv(q)) == q)), patterns=[inv(q)]))
+                return engine.alloc(outer, out)
             if kind in ("list", "gen"):
-                if conds:
-                    raise Unsupported("filtered list comprehension")
                 val = engine.unbox_value(st, engine.eval(st, node.elt))
                 arrs = [z3.Lambda([q], c) for c in val.c]
                 return engine.alloc(outer, V(Ty.List(val.t), [it.length] + arrs))
